@@ -32,6 +32,10 @@ func C03() int {
 	for i, l := range g.CharsetLines() {
 		items = append(items, rawItem("charset", l, i))
 	}
+	// entries whose envelope members hold another JSON kind than the server writes (attr a string, ...)
+	for i, l := range g.EnvelopeKinds() {
+		items = append(items, rawItem("envelope-kind", l, i))
+	}
 	// the explicit small product {key} × {value kind} × {zone}
 	pv := gen.ProbeValues()
 	nprod := 0
